@@ -8,6 +8,9 @@ CHECKS = {
     "C03": p_plan.check_c03,
     "C04": p_e2e.check_c04,
     "C05": p_plan.check_c05,
+    "C06": p_e2e.check_c06,
+    "C07": p_e2e.check_c07,
+    "C08": p_e2e.check_c08,
     "C09": p_plan.check_c09,
     "C10": p_plan.check_c10,
     "C12": p_names.check_c12,
